@@ -240,6 +240,7 @@ func seqHistory(cfg c11cfg, rng *rand.Rand, n int) (rec, error) {
 // concHistory runs goroutines that each perform whole transactions; the per-id lock serialises
 // them, so the per-id order of transactions (by the moment Write/Read returned) is a sequential history.
 func concHistory(cfg c11cfg, seed int64, procs, txns int) (rec, error) {
+	wide := procs >= 10
 	w, err := newC11World(cfg)
 	if err != nil {
 		return nil, err
@@ -265,6 +266,10 @@ func concHistory(cfg c11cfg, seed int64, procs, txns int) (rec, error) {
 			var stale store.ReadTxn // a transaction of this goroutine that is closed already
 			for k := 0; k < txns; k++ {
 				id := c11ids[rng.Intn(2)]
+				if wide {
+					// many goroutines, (almost) each on an id of its own: writes to different ids overlap all the time
+					id = fmt.Sprintf("w%d", (p+rng.Intn(2))%procs)
+				}
 				tr := txnRec{id: id, write: rng.Intn(3) != 0}
 				var t store.ReadTxn
 				if tr.write {
@@ -416,7 +421,11 @@ func RunC11(c *core.Ctx) {
 			continue
 		}
 		for i := 0; i < c.Pick(6, 60); i++ {
-			r, err := concHistory(cfg, c.Seed*131+int64(i), 2+rng.Intn(6), 6)
+			procs := 2 + rng.Intn(6)
+			if i%3 == 2 {
+				procs = 12
+			}
+			r, err := concHistory(cfg, c.Seed*131+int64(i), procs, 6)
 			if err != nil {
 				c.Inconclusive("%s: %v", cfg, err)
 				break
